@@ -234,6 +234,63 @@ fn clones_mode(wseed: u64, threads: usize) {
     println!("ok clones workload_seed={} threads={}", wseed, threads);
 }
 
+/// Native stress (not under Miri): the same disjoint-instance idea on real threads at full speed, for what neither
+/// the baton scheduler (no yield point inside) nor Miri (no SIMD FFI, few interleavings per second) reaches: process-wide
+/// scratch or caches touched for a few instructions inside the kernels' wrappers. Each thread owns its key, contexts
+/// and inputs; the expected results are computed first, by the main thread alone.
+fn stress_mode(wseed: u64, threads: usize, rounds: usize) {
+    let mk = |t: usize| -> (Vec<Vec<u8>>, [u8; 32], String) {
+        let mut s = wseed.wrapping_mul(0x9E37_79B9).wrapping_add(t as u64 * 15485863);
+        let sizes = [0usize, 31, 64, 65, 1024, 1025, 3000, 8 * 1024 + 1, 40 * 1024, 70 * 1024 + 3, 300 * 1024 + 17];
+        let inputs: Vec<Vec<u8>> = sizes.iter().map(|n| bytes(splitmix(&mut s), *n)).collect();
+        let key: [u8; 32] = bytes(splitmix(&mut s), 32).try_into().unwrap();
+        let ctx: String = bytes(splitmix(&mut s), 24).iter().map(|b| (b'a' + (b % 26)) as char).collect();
+        (inputs, key, ctx)
+    };
+    let run = |inputs: &[Vec<u8>], key: &[u8; 32], ctx: &str| -> Vec<Vec<u8>> {
+        let mut out = Vec::new();
+        for m in inputs {
+            out.push(blake3::keyed_hash(key, m).as_bytes().to_vec());
+            out.push(blake3::hash(m).as_bytes().to_vec());
+            out.push(blake3::derive_key(ctx, m).to_vec());
+            let mut h = blake3::Hasher::new_keyed(key);
+            let cut = m.len() / 3;
+            h.update(&m[..cut]);
+            h.update(&m[cut..]);
+            let mut x = [0u8; 100];
+            h.finalize_xof().fill(&mut x);
+            out.push(x.to_vec());
+        }
+        out
+    };
+    let jobs: Vec<(Vec<Vec<u8>>, [u8; 32], String)> = (0..threads).map(mk).collect();
+    let solo: Vec<Vec<Vec<u8>>> = jobs.iter().map(|(i, k, c)| run(i, k, c)).collect();
+    let barrier = Arc::new(Barrier::new(threads));
+    let bad = Arc::new(std::sync::atomic::AtomicUsize::new(usize::MAX));
+    std::thread::scope(|sc| {
+        for (t, (inputs, key, ctx)) in jobs.iter().enumerate() {
+            let (b, bad, want) = (barrier.clone(), bad.clone(), &solo[t]);
+            sc.spawn(move || {
+                b.wait();
+                for _ in 0..rounds {
+                    if run(inputs, key, ctx) != *want {
+                        bad.store(t, std::sync::atomic::Ordering::Relaxed);
+                        return;
+                    }
+                    if bad.load(std::sync::atomic::Ordering::Relaxed) != usize::MAX {
+                        return;
+                    }
+                }
+            });
+        }
+    });
+    let t = bad.load(std::sync::atomic::Ordering::Relaxed);
+    if t != usize::MAX {
+        panic!("NOT-ISOLATED workload_seed={} thread={}: a result computed while other threads were hashing differs from the solo run", wseed, t);
+    }
+    println!("ok stress workload_seed={} threads={} rounds={}", wseed, threads, rounds);
+}
+
 /// C07 (unsafe Rust intrinsics): the pure build's SSE2 / SSE4.1 / AVX2 kernels interpreted by Miri, which checks
 /// every vector load and store for bounds, alignment requirements and initialisation. The level is forced through
 /// the detect() hook (it sits before the cfg(miri) short-circuit). Results must also equal the portable level.
@@ -287,6 +344,10 @@ fn main() {
     let threads: usize = args.get(2).and_then(|s| s.parse().ok()).unwrap_or(3);
     if args.get(3).map(|s| s.as_str()) == Some("join") {
         join_mode(wseed);
+        return;
+    }
+    if args.get(3).map(|s| s.as_str()) == Some("stress") {
+        stress_mode(wseed, threads.max(2), args.get(4).and_then(|s| s.parse().ok()).unwrap_or(60));
         return;
     }
     if args.get(3).map(|s| s.as_str()) == Some("clones") {
